@@ -126,7 +126,10 @@ def sym_eval(e, ctx):
             if r is not None:
                 return Poly.sym(ctx.asym) * abs(r)
             raise Unknown("abs of %s" % src(e.args[0]))
-        if n == "int" and len(e.args) == 1:
+        if n in ("int", "bool") and len(e.args) == 1:
+            t = truth(e.args[0], ctx) if isinstance(e.args[0], (ast.Compare, ast.UnaryOp)) else None
+            if t is not None:
+                return Poly.const(1 if t else 0)
             return sym_eval(e.args[0], ctx)
     raise Unknown("not polynomial: %s" % key)
 
